@@ -70,6 +70,18 @@ theorem close_inclusion (H : HashFn) (algo : Nat) (b : Builder) (root : Node) (h
       simp only [List.append_nil] at hl
       exact ⟨by rw [hl, hi.leaves], inclusion H algo r hw⟩
 
+/-- **Open forest.** Before closing — and after a close that was refused, which leaves the builder as it was — the chain
+handed out for a leaf leads to the top of the sub tree the leaf sits in: it recomputes, from the leaf's own level, exactly that
+sub tree's level and hash.  (What `KSI_TreeLeafHandle_getAggregationChain` returns on an unclosed builder; compared by the
+executor's `U` entries.) -/
+theorem open_forest_inclusion (H : HashFn) (algo : Nat) (b : Builder) (hi : Inv H algo b) (n : Node) (hn : some n ∈ b.stack) :
+    ∀ k lv bytes ch, (k, lv, bytes, ch) ∈ chains n → refChain H algo lv bytes ch = some (n.level, n.bytes) :=
+  inclusion H algo n (hi.wf n hn)
+
+/-- a refused close changes nothing: the function is pure on the stack, the builder keeps its slots and its leaves -/
+theorem refused_close_keeps_builder (H : HashFn) (algo : Nat) (b : Builder) (e : Nat) (hi : Inv H algo b)
+    (_h : close H algo b.stack = .error e) : Inv H algo b := hi
+
 /-- The block signer's leaf processors (metadata sibling first, then the blinding mask) are
 sound in the above sense, whatever the mask chain state. -/
 theorem signerPrep_sound (H : HashFn) (algo : Nat) (prev iv md : Option Bytes) :
